@@ -34,8 +34,9 @@ Definition x_overlap := overlap C c0 cadd cmul cconj.
 Definition x_apply := apply_to C c0 cadd cmul cconj.
 Definition x_occupation := obs_occupation C c0 c1 cadd cmul cconj.
 Definition x_correlation := obs_correlation C c0 c1 cadd cmul cconj.
-Definition x_m2_sq := obs_m2_sq C c0 cadd cmul cconj.
-Definition x_var_sub := obs_var_sub C c0 cadd cmul cconj.
+Definition x_m2 := obs_m2 C c0 c1 cadd cmul cconj.
+Definition x_variance := obs_variance C c0 c1 cadd cmul cconj csub.
+Definition x_def_variance := def_variance C c0 cadd cmul csub.
 Definition x_fidelity := obs_fidelity C c0 cadd cmul cconj.
 Definition x_from_repr := from_repr C c0 c1 cadd cmul.
 Definition x_from_amps := from_amps C c0 cadd.
@@ -65,22 +66,6 @@ Definition closeq (x : Q) (f : float) : bool :=
   end.
 Definition close (num den : Z) (f : float) : bool := closeq (mkq num den) f.
 
-(** [r] is [sqrt x] up to the tolerance: r >= 0 and (r-dl)^2 <= x <= (r+dl)^2,
-    dl = tol (1 + r) *)
-Definition close_sqrt_q (x r : Q) : bool :=
-  let dl := (tolq * (1 + r))%Q in
-  Qle_bool 0%Q r && Qle_bool x ((r + dl) * (r + dl))%Q &&
-  (Qle_bool (r - dl)%Q 0%Q || Qle_bool ((r - dl) * (r - dl))%Q x).
-Definition close_sqrt (num den : Z) (f : float) : bool :=
-  match f2q f with None => false | Some r => close_sqrt_q (mkq num den) r end.
-
-(** the variance as coded: [f = sqrt m2sq - sub] *)
-Definition close_var (m2num m2den subnum subden : Z) (f : float) : bool :=
-  match f2q f with
-  | None => false
-  | Some v => close_sqrt_q (mkq m2num m2den) (v + mkq subnum subden)%Q
-  end.
-
 Definition all_true (l : list bool) : bool := forallb (fun b => b) l.
 
 (** * one "observables on a state" case *)
@@ -109,14 +94,16 @@ Definition chk_expect (D : nat) (A : cmat) (aden : Z) (s : cstate) (sden : Z) (r
   let x := x_expect D A s in
   close (fst x) (rho_den s sden * aden) re && close (snd x) (rho_den s sden * aden) im.
 
-Definition chk_m2 (D : nat) (H : cmat) (hden : Z) (s : cstate) (sden : Z) (f : float) : bool :=
-  let w := rho_den s sden * hden * hden in
-  close_sqrt (fst (x_m2_sq D H s)) (w * w) f.
+(** [EnergySecondMoment]: real part of [x_m2]; entries of H over [hden] *)
+Definition chk_m2 (d n : nat) (H : cmat) (hden : Z) (s : cstate) (sden : Z) (f : float) : bool :=
+  close (fst (x_m2 d n H s)) (rho_den s sden * hden * hden) f.
 
-Definition chk_var (D : nat) (H : cmat) (hden : Z) (s : cstate) (sden : Z) (f : float) : bool :=
-  let w := rho_den s sden * hden * hden in
-  let w2 := rho_den s sden * hden in
-  close_var (fst (x_m2_sq D H s)) (w * w) (fst (x_var_sub D H s)) (w2 * w2) f.
+(** [EnergyVariance]: [Re second_moment - (Re energy)^2] *)
+Definition chk_var (d n : nat) (H : cmat) (hden : Z) (s : cstate) (sden : Z) (f : float) : bool :=
+  let w := rho_den s sden in
+  let m2 := mkq (fst (x_m2 d n H s)) (w * hden * hden) in
+  let e := mkq (fst (x_expect (d ^ n) H s)) (w * hden) in
+  closeq (m2 - e * e)%Q f.
 
 Definition chk_fidelity (D : nat) (t : cstate) (tden : Z) (s : cstate) (sden : Z) (f : float) : bool :=
   close (fst (x_fidelity D t s)) (rho_den t tden * rho_den s sden) f.
@@ -129,14 +116,10 @@ Definition weight (s : cstate) (k : nat) : Z :=
   | Dm _ M => Z.abs (fst (M k k))
   end.
 
-(** the bitstring (as a number, leftmost qudit most significant) of basis state [k].
-    [bitstring_probabilities] relabels by successive string replacements: first
-    the one-state by "1", then every other eigenstate by "0".  When the
-    character "1" names one of the OTHER eigenstates ([clash]), the second step
-    also erases the ones just written: every basis state reads as 00..0. *)
-Definition bits_of (d n one : nat) (clash : bool) (k : nat) : Z :=
-  if clash then 0
-  else fold_left (fun acc x => 2 * acc + (if Nat.eqb x one then 1 else 0)) (digs d n k) 0.
+(** the bitstring (as a number, leftmost qudit most significant) of basis state
+    [k]: each qudit reads 1 if it is in the one-state, else 0 *)
+Definition bits_of (d n one k : nat) : Z :=
+  fold_left (fun acc x => 2 * acc + (if Nat.eqb x one then 1 else 0)) (digs d n k) 0.
 
 Fixpoint add_to (key : Z) (w : Z) (l : list (Z * Z)) : list (Z * Z) :=
   match l with
@@ -145,20 +128,20 @@ Fixpoint add_to (key : Z) (w : Z) (l : list (Z * Z)) : list (Z * Z) :=
   end.
 
 (** [cutoff] is compared exactly: [w_k / wden > cutoff] *)
-Definition bit_weights (d n one : nat) (clash : bool) (s : cstate) (sden : Z) (cutoff : float) : list (Z * Z) * Z :=
+Definition bit_weights (d n one : nat) (s : cstate) (sden : Z) (cutoff : float) : list (Z * Z) * Z :=
   let wden := rho_den s sden in
   let cq := match f2q cutoff with Some q => q | None => 0%Q end in
   let sel := filter (fun k => negb (Qle_bool (mkq (weight s k) wden) cq)) (nat_range (d ^ n)) in
   let tot := fold_left (fun acc k => acc + weight s k) sel 0 in
-  (fold_left (fun acc k => add_to (bits_of d n one clash k) (weight s k) acc) sel [], tot).
+  (fold_left (fun acc k => add_to (bits_of d n one k) (weight s k) acc) sel [], tot).
 
 Fixpoint lookupZ (k : Z) (l : list (Z * Z)) : option Z :=
   match l with [] => None | (k', w) :: r => if k =? k' then Some w else lookupZ k r end.
 
 (** implementation: list of (bitstring number, probability) *)
-Definition chk_bitprobs (d n one : nat) (clash : bool) (s : cstate) (sden : Z) (cutoff : float)
+Definition chk_bitprobs (d n one : nat) (s : cstate) (sden : Z) (cutoff : float)
   (impl : list (Z * float)) : bool :=
-  let bw := bit_weights d n one clash s sden cutoff in
+  let bw := bit_weights d n one s sden cutoff in
   (length impl =? length (fst bw))%nat &&
   all_true (map (fun p => match lookupZ (fst p) (fst bw) with
                           | Some w => close w (snd bw) (snd p)
